@@ -1,7 +1,7 @@
 """Canonical, JSON-able fingerprints of parse outcomes (DESIGN 2.5)."""
 import re
 
-_ANON = re.compile(r'_anonymous_\d+')
+_ANON = re.compile(r'_anonymous_[0-9_]*[0-9]')
 _ADDR = re.compile(r'0x[0-9a-fA-F]{6,}')
 
 
